@@ -118,12 +118,21 @@ func c15Programs(tier string) ([]*Spec, [][]string) {
 			}
 		}
 	}
-	// the output starts failing at write k while the bars end normally or by cancellation: for some k the failing
-	// write is a render of the closing loop (after the container is done), not a regular cycle
+	for _, sp := range closingWritePrograms("c15") {
+		out = append(out, sp)
+		tags = append(tags, []string{"fault:write"})
+	}
+	return out, tags
+}
+
+// closingWritePrograms: the output starts failing at write k while the bars end normally or by cancellation: for
+// some k the failing write is a render of the closing loop (after the container is done), not a regular cycle.
+func closingWritePrograms(prefix string) []*Spec {
+	var out []*Spec
 	for _, k := range []int{1, 2, 3, 4, 5} {
 		for _, how := range []string{"complete", "cancel"} {
 			for _, n := range []int{1, 2} {
-				sp := &Spec{Name: fmt.Sprintf("c15-closing-write@%d-%s-n%d", k, how, n), Refresh: "auto", Q: -1, FailWrite: k, Notifier: true}
+				sp := &Spec{Name: fmt.Sprintf("%s-closing-write@%d-%s-n%d", prefix, k, how, n), Refresh: "auto", Q: -1, FailWrite: k, Notifier: true}
 				for i := 0; i < n; i++ {
 					sp.Bars = append(sp.Bars, BarSpec{Total: 1, Pre: []DecorSpec{syncD(2, 1)}})
 					sp.Main = append(sp.Main, Op{K: "add", B: i})
@@ -136,11 +145,10 @@ func c15Programs(tier string) ([]*Spec, [][]string) {
 					sp.Clients = append(sp.Clients, []Op{{K: "cancel"}})
 				}
 				out = append(out, sp)
-				tags = append(tags, []string{"fault:write"})
 			}
 		}
 	}
-	return out, tags
+	return out
 }
 
 func init() {
